@@ -174,6 +174,11 @@ var RangeFunc = function.New(&function.Spec{
 		default:
 			return cty.NilVal, fmt.Errorf("must have one, two, or three arguments")
 		}
+		if start.AsBigFloat().IsInf() {
+			// An infinite start can never produce a useful sequence, and adding
+			// an infinite step of the opposite sign to it is not defined.
+			return cty.NilVal, function.NewArgErrorf(0, "start must be a finite number")
+		}
 
 		var vals []cty.Value
 
